@@ -187,6 +187,13 @@ WIDE_COMPOUND = [t.replace("@", op) for op in ("+=", "-=", "*=", "/=", "%=", "&=
                            "{ RxV @ 2LL; }", "{ for (i = 0; i < 2; i++) { RxxV @ i; } }", "{ uint32_t a = RsV; a @ RttV; RdV = a; }")]
 
 
+# non-constant ?: whose arms are the same stateless thing; conditions / operands that are used a second time
+SAME_ARM_TEMPLATES = ["{ RdV = PuV ? uiV : uiV; if (PuV) { RdV = RsV; } }", "{ if (PuV) { RdV = RsV; } RdV = PuV ? uiV : uiV; }",
+                      "{ int32_t a = RsV; RdV = (RtV > 1) ? a : a; }", "{ RdV = (RsV > RtV) ? 5 : 5; }", "{ EA = RsV; RdV = RtV ? EA : EA; }",
+                      "{ RxV = PuV ? RxV : RxV; }", "{ RdV = (RsV > RtV) ? RsV : RsV; ReV = (RsV > RtV); }",
+                      "{ int32_t a = RsV; RdV = (a > 1) ? a : a; ReV = a; }"]
+
+
 def bool_consumer_templates():
     """every shape of truth-valued expression x every kind of consumer: conditions must receive booleans, everything
     else the 0/1 integer"""
@@ -200,7 +207,7 @@ def template_texts(which):
         t += list(c09.DEAD_ARM_TEMPLATES)
     if which in ("C11", "C10", "C12"):
         from . import c16
-        t += context_templates() + bool_consumer_templates() + c16.NARROW_COMPOUND + WIDE_COMPOUND
+        t += context_templates() + bool_consumer_templates() + c16.NARROW_COMPOUND + WIDE_COMPOUND + SAME_ARM_TEMPLATES
     if which == "C12":
         # value-bearing statement-expressions are the class of the listed finding
         # KF-C12-statement-expression-declaration-emitted-twice: excluded by construction for C12
